@@ -158,7 +158,6 @@ fn run_scenario(sc: &serde_json::Value) -> serde_json::Value {
             deliver: Some(deliver),
             raw_flag: Some(Arc::clone(&s.flag)),
             pending_mid: false,
-            skip_next_hash: false,
         })
     });
 
